@@ -205,6 +205,9 @@ def verify_contract(contract, repo, callee_contracts, models_factory, max_paths=
             for spec in contract.loops.values():
                 spec.call = call
             fn = call.ctx.get("fn") or resolve_function(I, contract.key, call.enclosing)
+            from .interp import check_signature
+
+            check_signature(contract.key, fn)  # the contract's setup was written for this signature
             try:
                 try:
                     rv = I.run_closure(fn, call.args, call.kwargs)
